@@ -1744,10 +1744,14 @@ impl Visit for TypeDeclCollector {
         ts_interface_decl.visit_children_with(self);
         let key = (ts_interface_decl.id.sym.clone(), ts_interface_decl.id.ctxt);
         if let Some(interface) = self.interfaces.get_mut(&key) {
+            // declaration merging: members and heritage clauses of all declarations
             interface
                 .body
                 .body
                 .extend_from_slice(&ts_interface_decl.body.body);
+            interface
+                .extends
+                .extend_from_slice(&ts_interface_decl.extends);
         } else {
             self.interfaces.insert(key, ts_interface_decl.clone());
         }
